@@ -1,7 +1,14 @@
 package main
 
 import (
+	"crypto/aes"
+	"crypto/cipher"
+	"crypto/hmac"
+	"crypto/md5"
+	"crypto/sha1"
+	"crypto/sha256"
 	"fmt"
+	"hash"
 	"time"
 
 	"github.com/gebn/bmc"
@@ -60,5 +67,46 @@ func init() {
 	register("ent", func(w []string) string {
 		i := ipmi.EntityInstance(atoi(w[1]))
 		return fmt.Sprintf("%v %v", i.IsSystemRelative(), i.IsDeviceRelative())
+	})
+}
+
+func init() {
+	// Go's crypto on the same inputs as the Gallina instances (validates the
+	// executable MD5/SHA-1/SHA-256/AES of the model on every run)
+	register("hmac", func(w []string) string {
+		var h func() hash.Hash
+		switch atoi(w[1]) {
+		case 1:
+			h = sha1.New
+		case 2:
+			h = md5.New
+		case 3:
+			h = sha256.New
+		default:
+			return "-"
+		}
+		m := hmac.New(h, unhex(w[2]))
+		m.Write(unhex(w[3]))
+		return tohex(m.Sum(nil))
+	})
+	register("cbcenc", func(w []string) string {
+		blk, err := aes.NewCipher(unhex(w[1]))
+		if err != nil {
+			return "err"
+		}
+		pt := unhex(w[3])
+		out := make([]byte, len(pt)/16*16)
+		cipher.NewCBCEncrypter(blk, unhex(w[2])).CryptBlocks(out, pt[:len(out)])
+		return tohex(out)
+	})
+	register("cbcdec", func(w []string) string {
+		blk, err := aes.NewCipher(unhex(w[1]))
+		if err != nil {
+			return "err"
+		}
+		ct := unhex(w[3])
+		out := make([]byte, len(ct)/16*16)
+		cipher.NewCBCDecrypter(blk, unhex(w[2])).CryptBlocks(out, ct[:len(out)])
+		return tohex(out)
 	})
 }
